@@ -207,7 +207,7 @@ def run(rep, tier, seed):
     combos = [(bs, ri, comp, bits, cmp) for bs in G.BLOCK_SIZES for ri in G.INTERVALS for comp in (0, 1)
               for bits in G.FILTER_BITS for cmp in (0, 1)]
     ncfg = 60 if quick else len(combos) + 60
-    budget = (5 << 20) if quick else (60 << 20)     # bytes of entries over all tables
+    budget = (5 << 20) if quick else (30 << 20)     # bytes of entries over all tables
     used = 0
     for i in range(ncfg):
         bs, ri, comp, bits, cmp = combos[rng.below(len(combos))] if quick or i >= len(combos) else combos[i]
@@ -216,7 +216,7 @@ def run(rep, tier, seed):
         if quick and i < 4: n = [0, 1, 2000, 1200][i]
         es = G.gen_entries(rng, tier, cmp, n=n)
         sz = sum(len(e[0]) + len(e[1]) for e in es)
-        cap = {64: 30 << 10, 256: 60 << 10, 1024: 150 << 10, 4096: 300 << 10, 65536: 700 << 10}[bs] * (1 if quick else 4)
+        cap = {64: 30 << 10, 256: 60 << 10, 1024: 150 << 10, 4096: 300 << 10, 65536: 700 << 10}[bs] * (1 if quick else 2)
         if sz > cap and (quick or i < len(combos)):
             # the list-based model re-walks the file for every block: keep blocks x file size modest
             acc = 0; keep = []
@@ -256,7 +256,7 @@ def run(rep, tier, seed):
             tl.append('table_scan %s %s' % (ropts(), fh)); tm.append(('scan', cfg))
             tl.append('table_entries %s %s' % (ropts(), fh)); tm.append(('entries', cfg))
             # lookups: every present key (sampled for big tables) + absent ones
-            npres = 64 if quick else 400
+            npres = 64 if quick else 160
             present = keys if len(keys) <= npres else [rng.choice(keys) for _ in range(npres)]
             targets = present + G.gen_targets(rng, keys, cmp, 40)
             for j in range(0, len(targets), 64):
@@ -314,7 +314,7 @@ def run(rep, tier, seed):
 
     # ================================================================ stage 3: malformed stream (C18)
     ml = []
-    nm = 1 if quick else 12
+    nm = 1 if quick else 6
     # blocks
     for _ in range(250 * nm):
         b = G.rand_garbage(rng)
